@@ -6,10 +6,21 @@ SIM_NOTE = ("VHDL semantics as implemented by cv.vhdl (independent parser, stati
 
 
 def register(claim):
+    claim("C10",
+          "Differential PBT against CPython itself: complete enumeration (thorough) / stride sample (quick) of the "
+          "signature x call-shape space (<= 3 params / <= 3 values, module-level, local and method contexts) plus Hypothesis "
+          "up to 6 params in 9 definition contexts; grammar-generated SSA programs over the supported constant-evaluable "
+          "subset (closures, nonlocal, lambdas with defaults, classes, inheritance, super, properties, __call__, operator "
+          "dispatch with reflected fallback, unpacking, comprehensions, constant control flow) executed natively and traced "
+          "inside a concurrent context (value read through a pyeval probe), compared type-exact per statement.",
+          "CPython non-binding exceptions are unspecified; cohdl rejections are allowed; run() is verified to be traced "
+          "(cohdl.evaluated()) on every run", "DESIGN.md 3/C10")
     claim("C13",
           "Generated histories of first uses of the lazily cached parametrised classes (fresh widths per example, "
           "so cache-miss paths run in the generated order) checked against a dict model (identity/distinctness) and "
-          "the transitive closure of the documented subclass edges; view chains checked for root/qualifier/aliasing. "
+          "the transitive closure of the documented subclass edges; generated view chains (.unsigned/.signed/.bitvector, slices, "
+          "indices, msb/lsb/left/right, iteration, slices of slices) checked against a bit-position model for root, qualifier, "
+          "read and write-through aliasing at Python level and for the index text in emitted VHDL. "
           "Exploration, not proof: widths and nesting are bounded.",
           "Python-level observation of cohdl classes; lattice model written from the property statement",
           "DESIGN.md 3/C13")
